@@ -118,9 +118,22 @@ class Rewriter(ast.NodeTransformer):
         return node
 
     def visit_JoinedStr(self, node):
-        # f-strings: route formatted values through _RT_.fmtval
+        # f'..{v:spec}..' -> _RT_.fstr('lit', (v, conv, spec_or_None), ...)
         self.generic_visit(node)
-        return node
+        parts = []
+        for v in node.values:
+            if isinstance(v, ast.Constant):
+                parts.append(v)
+            elif isinstance(v, ast.FormattedValue):
+                spec = v.format_spec if v.format_spec is not None else \
+                    ast.Constant(value=None)
+                parts.append(ast.Tuple(elts=[
+                    v.value, ast.Constant(value=v.conversion), spec],
+                    ctx=ast.Load()))
+            else:
+                return node
+        new = ast.Call(func=_rt('fstr'), args=parts, keywords=[])
+        return ast.copy_location(new, node)
 
     def visit_Subscript_annotation(self, node):
         return node
